@@ -72,13 +72,43 @@ def rep_ctor_calls(fn: ast.AST, names=("cpp_value", "cpp_variable", "cpp_collect
 
 
 def check_container_elements(col, rule: str, methods):
-    """visit_Tuple / visit_List / visit_Dict: every element translated with retain_scope=True."""
+    """visit_Tuple / visit_List / visit_Dict: every element translated with retain_scope=True (directly, or through a helper
+    of the visitor that forwards its own retain_scope parameter)."""
+    def is_true(e):
+        return isinstance(e, ast.Constant) and e.value is True
+
     for name in ("visit_Tuple", "visit_List", "visit_Dict"):
         f = methods.get(name)
         if f is None:
             raise AnalysisError(f"handler {name} not found")
-        calls = [c for c in ast.walk(f.node) if isinstance(c, ast.Call) and call_name(c) in ("get_rep", "get_rep_value", "as_sequence", "visit")]
-        ok = bool(calls) and all(isinstance(kwarg(c, "retain_scope"), ast.Constant) and kwarg(c, "retain_scope").value is True for c in calls)
+        verdicts = []
+        for c in ast.walk(f.node):
+            if not isinstance(c, ast.Call):
+                continue
+            if call_name(c) in ("get_rep", "get_rep_value", "as_sequence", "visit"):
+                verdicts.append(is_true(kwarg(c, "retain_scope")))
+            elif isinstance(c.func, ast.Attribute) and isinstance(c.func.value, ast.Name) and c.func.value.id == "self" and call_name(c) in methods:
+                h = methods[call_name(c)]
+                params = [a.arg for a in h.node.args.args]
+                inner = [x for x in ast.walk(h.node) if isinstance(x, ast.Call) and call_name(x) in ("get_rep", "get_rep_value", "as_sequence", "visit")]
+                for x in inner:
+                    rs = kwarg(x, "retain_scope")
+                    if is_true(rs):
+                        verdicts.append(True)
+                    elif isinstance(rs, ast.Name) and rs.id in params:
+                        # value at this call site: keyword, positional, or the helper's default
+                        v = kwarg(c, rs.id)
+                        idx = params.index(rs.id) - 1
+                        if v is None and 0 <= idx < len(c.args):
+                            v = c.args[idx]
+                        if v is None:
+                            dflt = h.node.args.defaults
+                            off = len(params) - len(dflt)
+                            v = dflt[params.index(rs.id) - off] if params.index(rs.id) >= off else None
+                        verdicts.append(is_true(v))
+                    else:
+                        verdicts.append(False)
+        ok = bool(verdicts) and all(verdicts)
         col.add(rule, f.short, "elements-translated-with-retain_scope", ok,
                 "every element must be translated with retain_scope=True, otherwise the loop/if (and the First() emptiness throw) opened by one "
                 "element encloses the code of the next; the sibling handlers visit_Tuple/visit_List/visit_Dict must agree", f.loc)
@@ -179,6 +209,12 @@ def import_obligations(col, new_rule: str, module: str, pred, why: str = ""):
             col.add(new_rule, o.construct, o.detail, o.ok, o.msg + (f" ({why})" if why else ""), o.loc)
             n += 1
     if n == 0:
+        failed = [o for o in _SUB_CACHE[module].obs if not o.ok]
+        if failed:
+            # the other checker stopped early on a broken anchor: its failures are the verdict on the shared mechanism
+            for o in failed[:3]:
+                col.add(new_rule, o.construct, o.detail, False, o.msg + (f" ({why})" if why else ""), o.loc)
+            return
         raise AnalysisError(f"cross-referenced obligations of {module} for {new_rule} not found")
 
 
